@@ -149,3 +149,15 @@ Print Assumptions c15_wake_tso_close.
 
 Theorem c15_wake_tso_without_fence_refuted : batch_wake_safe false = false.
 Proof. exact batch_wake_unfenced_refuted. Qed.
+
+(* ---- "with the publisher's writes fully visible": the release/acquire half on the view machine (coq/WM/RA.v).
+   publisher = fill the slot, release fence, relaxed status store; consumer = relaxed status load, acquire fence,
+   read the item - with the fence orders regenerated from transient_topic.hpp. *)
+Require Import Verif.WM.RA Verif.WM.RALitmus Verif.WM.RALitmusProofs.
+Definition c15_publish_fence : morder := match sites_publish_n with [_; _; _; (KFence, o, _); _] => o | _ => Relaxed end.
+Definition c15_consume_fence : morder := match sites_consume with [(KFence, o, _)] => o | _ => Relaxed end.
+Theorem c15_publication : forall sch,
+  RA.final (RA.run (RA.init (mp_fence_orders c15_publish_fence c15_consume_fence)) sch) = true ->
+  mp_bad (RA.result (RA.run (RA.init (mp_fence_orders c15_publish_fence c15_consume_fence)) sch)) = false.
+Proof. apply mp_fence_orders_all_executions. vm_compute. reflexivity. Qed.
+Print Assumptions c15_publication.
